@@ -50,8 +50,8 @@ STUBS = ["pulse_processing.convert_to_phase (deterministic superconductor physic
          "numpy.random global-state functions -> vx.rngmodel (seed/get_state/set_state/draws over an uninterpreted state sort); drawn data come from a private generator keyed on the state term",
          "calibration plumbing: ArchipelagoDataTree replaced by a recording stub, ModelFittingDataTree.__init__ by a recorder of its keyword arguments"]
 OUTSIDE = ["bit-identity of results additionally needs numpy's generator and pygmo to be deterministic functions of their seeds (assumed)",
-           "generators local to a model (np.random.default_rng, RandomState objects) do not touch the process-wide state and are not modelled",
-           "models needing external data files or large setups (cosmix, charge_deposition, nghxrg, conversion_with_qe_map) are not exercised"]
+           "generators local to a model are not modelled as state machines; creating one from operating-system entropy (default_rng(None), RandomState(None)) is recorded and forbidden when a seed is given",
+           "models needing large setups (cosmix, nghxrg, conversion_with_qe_map) are not exercised; charge_deposition runs with the shipped stopping-power table"]
 ASSUMPTIONS = ["model outputs are deterministic functions of their inputs and of the values drawn"]
 EXPLANATION = "state terms over UF; equalities decided by z3; independence from the prior state by substitution of a fresh initial state"
 
